@@ -146,7 +146,23 @@ class Check:
         return 0
 
 
+def show_replay(path):
+    """`./check Cxx quick --replay <file>`: print the self-contained counterexample recorded by an earlier run (property, failing
+    clause, program / script / history / trace and seed).  Re-running the check with the same VERIF_SEED regenerates it."""
+    try:
+        d = json.load(open(path))
+    except Exception as e:
+        print(f"cannot read replay file {path}: {e}", file=sys.stderr)
+        return 2
+    print(f"VIOLATION property={d.get('property')} replay={path}  # {d.get('what')}")
+    print(json.dumps(d.get("replay"), indent=1, default=str)[:20000])
+    print(f"(seed {d.get('seed')}: re-run `VERIF_SEED={d.get('seed')} ./check {d.get('property')} quick` to regenerate)")
+    return 1
+
+
 def main(run_fn, pid):
+    if "--replay" in sys.argv:
+        return show_replay(sys.argv[sys.argv.index("--replay") + 1])
     tier = os.environ.get("VERIF_TIER") or (sys.argv[1] if len(sys.argv) > 1 else "quick")
     seed = int(os.environ.get("VERIF_SEED", "0") or 0)
     chk = Check(pid, tier, seed)
